@@ -229,6 +229,16 @@ theorem getConn_run_foreign (fixed : Bool) (env : Env) (screens : List Screen) (
     rw [this]
     exact getConn_foreign fixed env screens s e cid (hf e List.mem_cons_self)
 
+theorem run_nil (fixed : Bool) (env : Env) (screens : List Screen) (s : Proc) :
+    run fixed env screens s [] = s := rfl
+
+theorem run_cons (fixed : Bool) (env : Env) (screens : List Screen) (s : Proc) (e : Ev) (es : List Ev) :
+    run fixed env screens s (e :: es) = run fixed env screens (step fixed env screens s e) es := rfl
+
+theorem run_append (fixed : Bool) (env : Env) (screens : List Screen) (s : Proc) (a b : List Ev) :
+    run fixed env screens s (a ++ b) = run fixed env screens (run fixed env screens s a) b := by
+  simp [run, List.foldl_append]
+
 theorem getConn_recv (fixed : Bool) (env : Env) (screens : List Screen) (s : Proc) (cid : Nat)
     (bytes : List UInt8) (c : Conn) (hg : getConn s cid = some c) (hp : c.peerClosed = false) :
     getConn (step fixed env screens s (.recv cid bytes)) cid = some { c with inbuf := c.inbuf ++ bytes } := by
